@@ -7,14 +7,15 @@ use quil_rs::instruction::{
 };
 use quil_rs::quil::Quil;
 use quil_rs::Program;
-use qvh::progs::{parse_all, text_of, Pools};
+use qvh::progs::{parse_all, target_id, text_of, Pools};
 use qvh::*;
 use std::collections::HashMap;
 
 /// Placeholder identities numbered by first occurrence.
 #[derive(Default)]
 struct Names {
-    targets: HashMap<TargetPlaceholder, u64>,
+    // keyed by the harness's own identity (Arc pointer bits), not by the type's ==/Hash
+    targets: HashMap<usize, u64>,
 }
 
 impl Names {
@@ -23,7 +24,7 @@ impl Names {
             Target::Fixed(s) => tagged("fixed", vec![st(s.clone())]),
             Target::Placeholder(p) => {
                 let n = self.targets.len() as u64;
-                let k = *self.targets.entry(p.clone()).or_insert(n);
+                let k = *self.targets.entry(target_id(p)).or_insert(n);
                 tagged("ph", vec![nat(k)])
             }
         }
@@ -275,6 +276,7 @@ fn run(ctx: &mut Ctx) {
             wrap_case(ctx, &p, &mref(name, *idx), &fixed("loop"), n);
             wrap_case(ctx, &p, &mref(name, *idx), &placeholder("loop"), n);
         }
+        wrap_case(ctx, &p, &mref(name, *idx), &placeholder(""), *n);
     }
 
     // 1b. a long body (more than 64 instructions)
